@@ -2,6 +2,7 @@ CONSTANTS
   FW = {1, 2, 3, 4, 5, 6}
   Rec = {1, 2, 3, 4, 5, 6, 7, 8, 9, 10, 11, 12, 13, 14, 15, 16, 17, 18, 19, 20, 21, 22, 23, 24}
   Thread = {1, 2, 3}
+  Orig = {1, 2}
   Deviations = {}
 SPECIFICATION TraceSpec
 INVARIANTS TypeOK RcExact ReleasedAtMostOnce ReleasedWhenUnreferenced CountExact NeverTouchedAfterRelease HeldWhileReferenced
